@@ -15,6 +15,7 @@ import random
 import zlib
 from typing import Any, Dict, Iterator, List, Optional
 
+import core
 from core import Case, Prop, SelfCheckFailure, exc_category, DOCUMENTED
 from gen import hx, unhx, rbytes
 
@@ -103,7 +104,8 @@ class Kind:
     def build(self, a): raise NotImplementedError
     def apply(self, obj, s): raise NotImplementedError
     def reported(self, obj) -> int: return int(obj.packet_len)
-    def pack(self, obj) -> bytes: return bytes(obj.pack())
+    def packer(self, obj): return obj.pack                     # the encoder call itself (returns what the library returns)
+    def pack(self, obj) -> bytes: return bytes(self.packer(obj)())
     def len_field(self, obj, raw: bytes) -> Optional[int]: raise NotImplementedError
     def expected_len_field(self, obj, raw: bytes) -> Optional[int]: raise NotImplementedError
     def extra(self, obj) -> Dict[str, Any]: return {}
@@ -241,7 +243,7 @@ class FrameKind(Kind):
             f.set_frame_len_in_header()
 
     def reported(self, f): return int(f.len())
-    def pack(self, f): return bytes(f.pack(truncated=f.header.truncated()))
+    def packer(self, f): return lambda: f.pack(truncated=f.header.truncated())
 
     def len_field(self, f, raw):
         return None if f.header.truncated() else (raw[4] << 8) | raw[5]
@@ -372,7 +374,9 @@ KINDS: Dict[str, Kind] = {
 # --------------------------------------------------------------------------------------------
 # observation of one object state
 # --------------------------------------------------------------------------------------------
-def _obs(kind: Kind, obj, err: Optional[str], where: str) -> Dict[str, Any]:
+def _obs(kind: Kind, obj, err: Optional[str], where: str, probe: bool = False) -> Dict[str, Any]:
+    """`probe`: the repeated pack() is made after the caller has modified the buffer the first one returned (an encoder
+    that hands out a buffer it keeps would then change its own result); done once or twice per line"""
     o: Dict[str, Any] = {"err": err, "reported": kind.reported(obj)}
     o.update(kind.extra(obj))
     before = copy.deepcopy(obj)
@@ -384,7 +388,10 @@ def _obs(kind: Kind, obj, err: Optional[str], where: str) -> Dict[str, Any]:
             raise
         o.update(raw=None, pack_err=cat, len_field=None, again=None, eq_after_pack=None, fresh=None)
         return o
-    again = kind.pack(obj) == raw
+    if probe:
+        again = core.pack_stable(obj, f"{type(obj).__name__}.pack() {where}", packer=kind.packer(obj)) == raw
+    else:
+        again = kind.pack(obj) == raw
     eq_after = kind.equal(obj, before)
     try:
         f = kind.fresh(obj)
@@ -428,7 +435,8 @@ def _build(thunk, what: str):
 
 def _run(kind: Kind, a) -> Dict[str, Any]:
     obj = _build(lambda: kind.build(a), "constructor / decoder")
-    out = {"initial": _obs(kind, obj, None, "after construction"), "steps": []}
+    out = {"initial": _obs(kind, obj, None, "after construction", probe=True), "steps": []}
+    last = len(a["steps"]) - 1
     for i, s in enumerate(a["steps"]):
         err = None
         try:
@@ -437,7 +445,7 @@ def _run(kind: Kind, a) -> Dict[str, Any]:
             err = exc_category(e)
             if err not in DOCUMENTED:
                 raise
-        out["steps"].append(_obs(kind, obj, err, f"after setter call #{i + 1}" + (" (refused)" if err else "")))
+        out["steps"].append(_obs(kind, obj, err, f"after setter call #{i + 1}" + (" (refused)" if err else ""), probe=i == last))
     return out
 
 
@@ -499,11 +507,26 @@ def _snap(x):
     return _snap_tlv(x)
 
 
+_CONF_KEYS = ("src_v", "src_w", "dst_v", "dst_w", "seq_v", "seq_w", "mode", "large", "crc", "dir", "segctrl")
+
+
+def _caller_conf(a) -> PduConfig:
+    """the caller's PduConfig as programs hold it: ONE object per configuration, handed to every constructor. The
+    property says constructing and packing never modify it, so the instance used by earlier lines with the same
+    values must still equal a new one (only used by ops that call no setter)."""
+    conf = core.REUSE.get(["C11.PduConfig"] + [a.get(k) for k in _CONF_KEYS], lambda: c06._conf(a))
+    new = _snap_conf(c06._conf(a))
+    if _snap_conf(conf) != new:
+        raise SelfCheckFailure(f"a PduConfig handed to constructors / pack() by earlier lines no longer holds its values: "
+                               f"{new!r} -> {_snap_conf(conf)!r}")
+    return conf
+
+
 def _inputs_builders():
     """kind -> function(a) -> (list of caller-supplied argument objects, constructor thunk)"""
     def cfdp(mk):
         def b(a):
-            conf = c06._conf(a)
+            conf = _caller_conf(a)
             args, ctor = mk(a, conf)
             return [conf] + args, ctor
         return b
@@ -586,8 +609,10 @@ def op_inputs(a):
         raise SelfCheckFailure(f"the constructor modified caller-supplied argument #{i}: {before[i]!r} -> {after_ctor[i]!r}")
     packer = (lambda: obj.pack(truncated=obj.header.truncated())) if a["kind"] == "frame" else obj.pack
     try:
-        r1 = bytes(packer())
-        r2 = bytes(packer())
+        # twice, the caller modifying the buffer the first call returned in between (SelfCheckFailure if the octets differ)
+        r1 = r2 = core.pack_stable(obj, f"{type(obj).__name__}.pack()", packer=packer)
+    except SelfCheckFailure:
+        raise
     except Exception as e:  # noqa
         if exc_category(e) not in DOCUMENTED:
             raise
@@ -603,7 +628,7 @@ def op_inputs(a):
 
 def op_conf(a):
     """the object's direction and the caller's configuration after construction and pack()"""
-    conf = _build(lambda: c06._conf(a), "PduConfig")
+    conf = _build(lambda: _caller_conf(a), "PduConfig")
     before = _snap_conf(conf)
     if a["kind"] == "nak":
         p = _build(lambda: NakPdu(conf, 0, 0, []), "constructor")
